@@ -93,5 +93,23 @@ func VerifH_C03_targetDuration() {
 		want := (d + time.Millisecond - 1) / time.Millisecond * time.Millisecond
 		verifAssert("C03", "partTargetDuration-boundary-table", got == want)
 	}
+	// which parts count: a media playlist lists the parts of its last two complete segments and of the open one, so
+	// PART-TARGET must cover the longest of those wherever it sits (older segments may or may not be counted)
+	for pos := 0; pos < 4; pos++ {
+		mk := func(i int) []*muxerPart {
+			d := 100 * time.Millisecond
+			if i == pos {
+				d = 450 * time.Millisecond
+			}
+			return []*muxerPart{{startDTS: 0, endDTS: 100 * time.Millisecond}, {startDTS: 0, endDTS: d}}
+		}
+		segs := []muxerSegment{&muxerSegmentFMP4{parts: mk(0)}, &muxerSegmentFMP4{parts: mk(1)}, &muxerSegmentFMP4{parts: mk(2)}}
+		got := partTargetDuration(segs, mk(3))
+		want := 100 * time.Millisecond
+		if pos >= 1 {
+			want = 450 * time.Millisecond
+		}
+		verifAssert("C03", "partTargetDuration-covers-the-listed-parts", got >= want)
+	}
 	verifReach("end")
 }
